@@ -160,7 +160,7 @@ func nearKeywords() []string {
 	seen := map[string]bool{}
 	var out []string
 	add := func(w string) {
-		if !seen[w] && len(w) <= 20 && isBenignWord(w) {
+		if !seen[w] && len(w) <= 24 && isBenignWord(w) {
 			seen[w] = true
 			out = append(out, w)
 		}
@@ -193,6 +193,23 @@ func nearKeywords() []string {
 				}
 			}
 		}
+	}
+	// compound table keys written as one identifier (blank replaced by '_' or dropped, words doubled)
+	var comp []string
+	for k := range kwTab() {
+		if strings.Contains(k, " ") && kwTab()[k] != 'F' {
+			comp = append(comp, k)
+		}
+	}
+	sort.Strings(comp)
+	for _, k := range comp {
+		lk := gen.LowerASCII(k)
+		add(strings.ReplaceAll(lk, " ", "_"))
+		add(strings.ReplaceAll(lk, " ", ""))
+		add(strings.ReplaceAll(lk, " ", "__"))
+		add("_" + strings.ReplaceAll(lk, " ", "_"))
+		add(strings.ReplaceAll(lk, " ", "_") + "_")
+		add(strings.ReplaceAll(lk, " ", "1"))
 	}
 	return out
 }
